@@ -115,7 +115,10 @@ def nanpercentile (l : List V) (q : Rat) : V :=
 completed trials reported at the step (NaNs included in the count). -/
 def percentileOverTrials (d : Dir) (vals : List V) (q : Rat) (nMin : Nat) : V :=
   if vals.length < nMin then none
-  else nanpercentile vals (match d with | .maximize => 100 - q | .minimize => q)
+  else
+    match d with
+    | .maximize => negV (nanpercentile (negVL vals) q)   -- `-np.nanpercentile(-values, percentile)` (repair of F41)
+    | .minimize => nanpercentile vals q
 
 /-- The value-dependent tail of `PercentilePruner.prune` (after the start-up / warm-up / interval
 guards, which do not look at values): `cur` = this trial's reports, `others` = what the completed
